@@ -396,7 +396,29 @@ func (f *g2lFn) rangeStmt(s *ast.RangeStmt, rest kont) []string {
 		}
 	}
 	if s.Tok == token.ASSIGN {
-		f.bad(s, "range with = (not :=)")
+		// for _, r = range l: the outer variables are assigned at the start of every iteration (loop state)
+		for _, e := range []ast.Expr{s.Key, s.Value} {
+			id, ok := e.(*ast.Ident)
+			if e == nil || (ok && id.Name == "_") {
+				continue
+			}
+			if !ok {
+				f.bad(s, "range with = into %s", show(e))
+			}
+			v, _ := f.p.info.Uses[id].(*types.Var)
+			if v == nil {
+				f.bad(s, "range with = into %s", id.Name)
+			}
+			dup := false
+			for _, c := range carriedV {
+				if c == v {
+					dup = true
+				}
+			}
+			if !dup {
+				carriedV = append(carriedV, v)
+			}
+		}
 	}
 	ex := map[*types.Var]bool{}
 	for _, v := range carriedV {
@@ -537,6 +559,9 @@ func (f *g2lFn) gotoTargets(n ast.Node) []ast.Node {
 func (f *g2lFn) varType(v *types.Var, at ast.Node) string {
 	if v == f.worldVar && v != nil {
 		return f.worldType
+	}
+	if f.isViewObj(v) {
+		return "TokRef"
 	}
 	if sig, ok := v.Type().Underlying().(*types.Signature); ok && f.isWorldFnVar(v) {
 		ps := []string{}
